@@ -656,3 +656,132 @@ def r_bondtype(ctx) -> RuleResult:
                              f"{ver}: a bond line of type {', '.join(str(t) for t, _ in bad)} is {bad[0][1]}: the format defines types {types[0]}..{types[-1]}"
                              + (" (9 coordination, 10 hydrogen; the writer emits whatever type the graph carries)" if ver == "V3000" else ""), line=d.lineno))
     return res
+
+
+# --------------------------------------------------------------------------- R-RECMERGE
+
+
+@rule("R-RECMERGE")
+def r_recmerge(ctx) -> RuleResult:
+    res = RuleResult("R-RECMERGE", "per-atom records that are collected attribute by attribute are merged, not replaced: no `D.update({atom: {attr: value}})` / `D[atom] = {attr: value}` in a loop over several attributes")
+    from .common import closure
+    ga = ctx.repo.module("tucan.graph_attributes")
+    attr_keys = {v for n_ in ga.assigns for v in [ctx.repo.try_const(ga, n_, None)] if isinstance(v, str)}
+    fis = {f.fq: f for f in closure(ctx, "canonicalize", "serialize", "parse", "read_text", "write")}
+    n_loops = 0
+    for f in fis.values():
+        for lp in own_walk(f.node):
+            if not isinstance(lp, ast.For):
+                continue
+            it = try_const(ctx, f, lp.iter, default=None)
+            if isinstance(lp.iter, ast.Call) and isinstance(lp.iter.func, ast.Attribute) and lp.iter.func.attr in ("items", "keys", "values") and not lp.iter.args:
+                base = try_const(ctx, f, lp.iter.func.value, default=None)
+                if isinstance(base, dict):
+                    it = list(base.items()) if lp.iter.func.attr == "items" else (list(base) if lp.iter.func.attr == "keys" else list(base.values()))
+            if isinstance(it, dict):
+                it = list(it)
+            if not isinstance(it, (list, tuple)) or len(it) < 2:
+                continue
+            flat = []
+            for x in it:
+                flat += list(x) if isinstance(x, (tuple, list)) else [x]
+            if not any(isinstance(x, str) and x in attr_keys for x in flat):
+                continue
+            n_loops += 1
+            lvars = {x.id for x in ast.walk(lp.target) if isinstance(x, ast.Name)}
+            assigned_in = {x.id for x in ast.walk(lp) if isinstance(x, ast.Name) and isinstance(x.ctx, ast.Store)}
+            for n in ast.walk(lp):
+                rec = key = tgt = None
+                if isinstance(n, ast.Call) and isinstance(n.func, ast.Attribute) and n.func.attr == "update" and isinstance(n.func.value, ast.Name) and len(n.args) == 1:
+                    a = n.args[0]
+                    if isinstance(a, ast.DictComp) and isinstance(a.value, ast.Dict):
+                        rec, key, tgt = a.value, a.key, n.func.value.id
+                    elif isinstance(a, (ast.GeneratorExp, ast.ListComp)) and isinstance(a.elt, ast.Tuple) and len(a.elt.elts) == 2 and isinstance(a.elt.elts[1], ast.Dict):
+                        rec, key, tgt = a.elt.elts[1], a.elt.elts[0], n.func.value.id
+                    elif isinstance(a, ast.Dict) and len(a.keys) == 1 and isinstance(a.values[0], ast.Dict):
+                        rec, key, tgt = a.values[0], a.keys[0], n.func.value.id
+                elif isinstance(n, ast.Assign) and isinstance(n.targets[0], ast.Subscript) and isinstance(n.targets[0].value, ast.Name) and isinstance(n.value, ast.Dict) and n.value.keys:
+                    rec, key, tgt = n.value, n.targets[0].slice, n.targets[0].value.id
+                if rec is None or tgt in assigned_in:
+                    continue
+                # a fresh record per pass, keyed by something that does not depend on the attribute of this pass
+                key_names = {x.id for x in ast.walk(key) if isinstance(x, ast.Name)}
+                if key_names & lvars:
+                    continue
+                if any(k is None for k in rec.keys):          # {**old, attr: value}: merges
+                    continue
+                rec_names = {x.id for k in rec.keys for x in ast.walk(k) if isinstance(x, ast.Name)}
+                if not (rec_names & lvars):
+                    continue          # the record's keys do not change from pass to pass
+                res.inst(f.fq, short(n, 70), "fail")
+                res.fail(Finding("R-RECMERGE", f.module.rel, f.qualname, norm(n)[:120],
+                                 f"every pass of the loop over {[x for x in flat if isinstance(x, str)][:4]} stores a fresh one-entry record under the atom in `{tgt}`, replacing what an earlier pass stored there: "
+                                 "an atom that carries several of these attributes keeps only the last one (e.g. the isotope mass of an atom that is also a radical is lost)", line=n.lineno))
+    res.inst("pipeline closures", f"{n_loops} loops over attribute tables examined", "ok")
+    res.counts = {"loops_over_attribute_tables": n_loops}
+    return res
+
+
+# --------------------------------------------------------------------------- R-CARRY
+
+
+@rule("R-CARRY")
+def r_carry(ctx) -> RuleResult:
+    res = RuleResult("R-CARRY", "the graph canonicalize_molecule returns is the input relabelled; if it descends from a graph that was built anew inside the pipeline, that graph is given the bonds together with their data")
+    from .common import closure, entry
+    from .flow import _run_canon
+    I, r = _run_canon(ctx)
+    can = entry(ctx, "canonicalize")
+    if r.kind != "graph":
+        raise AnalysisError(f"R-CARRY: canonicalize_molecule does not return a graph in the T-domain ({r.kind})")
+    rebuilt_result = r.oid != "G0"
+    res.inst(can.fq, "result descends from " + ("a graph built anew" if rebuilt_result else "the input graph (relabelled copies)"), "ok")
+    if not rebuilt_result:
+        res.counts = {"rebuilt": 0}
+        return res
+    sites = []
+    clo = closure(ctx, "canonicalize")
+    for f in clo:
+        for n in own_walk(f.node):
+            if isinstance(n, ast.Assign) and isinstance(n.value, ast.Call) and isinstance(n.targets[0], ast.Name):
+                rr = ctx.repo.resolve_dotted(f.module, n.value.func)
+                if rr and rr[0] == "ext" and rr[1] == "networkx.Graph" and not n.value.args:
+                    sites.append((f, n.targets[0].id, n))
+    if len(sites) != 1:
+        raise AnalysisError(f"R-CARRY: the result of canonicalize_molecule descends from a rebuilt graph, and {len(sites)} graphs are built in its closure: cannot tell which")
+    f, g, site = sites[0]
+    with_data = without = None
+    for n in own_walk(f.node):
+        if isinstance(n, ast.Call) and isinstance(n.func, ast.Attribute) and isinstance(n.func.value, ast.Name) and n.func.value.id == g:
+            if n.func.attr == "add_edges_from" and n.args:
+                a = n.args[0]
+                txt = norm(a)
+                has = "data=True" in txt or ".data(" in txt or (isinstance(a, (ast.GeneratorExp, ast.ListComp)) and isinstance(a.elt, ast.Tuple) and len(a.elt.elts) == 3)
+                if has:
+                    with_data = n
+                else:
+                    without = n
+            elif n.func.attr == "add_edge":
+                if any(k.arg is None for k in n.keywords) or len(n.args) > 2 or n.keywords:
+                    with_data = n
+                else:
+                    without = n
+            elif n.func.attr in ("add_weighted_edges_from", "update"):
+                raise AnalysisError(f"R-CARRY: `{short(n, 50)}`: form not read")
+    if with_data is None and without is None:
+        raise AnalysisError(f"R-CARRY: cannot see how the graph `{g}` built in {f.qualname} gets its bonds")
+    restored = [x for f2 in clo for x in own_walk(f2.node)
+                if (isinstance(x, ast.Call) and norm(x.func).endswith("set_edge_attributes"))
+                or (isinstance(x, ast.Subscript) and isinstance(x.value, ast.Attribute) and x.value.attr == "edges" and isinstance(x.ctx, ast.Store))
+                or (isinstance(x, ast.Call) and isinstance(x.func, ast.Attribute) and x.func.attr == "update" and isinstance(x.func.value, ast.Subscript)
+                    and isinstance(x.func.value.value, ast.Attribute) and x.func.value.value.attr == "edges")]
+    if without is not None and restored:
+        raise AnalysisError(f"R-CARRY: `{short(without, 50)}` adds the bonds without their data and `{short(restored[0], 50)}` writes bond data later; whether that restores all of it is beyond this analysis")
+    ok = without is None
+    res.inst(f.fq, f"`{short(with_data or without, 60)}` carries the bond data", "ok" if ok else "fail")
+    if not ok:
+        res.fail(Finding("R-CARRY", f.module.rel, f.qualname, norm(without),
+                         "the graph that canonicalize_molecule returns descends from this rebuilt graph, whose bonds are added without their data, and nothing writes bond data later: "
+                         "every bond of the canonical graph has lost its attributes (bond type)", line=without.lineno))
+    res.counts = {"rebuilt": 1}
+    return res
